@@ -8,16 +8,16 @@
   Lemmas/WFFiles.lean), the reader needs the same of what it recovers from a file, and a
   view descriptor must never be resolved against another descriptor.  `World.Good` adds these.
 
-  FINDINGS (counterexamples at the end of the file): even `World.Good` is not preserved by
-  every history, through two artefacts of the NAME-based view descriptors of `World`:
-    (F-A) a copying operation whose result still carries the `view` flag, stored under an
-          `r=` name that is currently bound to a view, enters the write-back branch of
-          `World.put` and writes a foreign column into that view's parent;
-    (F-B) after the name of a view's parent has been rebound to a record map whose field `i`
-          is BOOLEAN (and whose blank value of that field equals the descriptor's sentinel),
-          `World.get?` resolves the view to a `plain bool` map with a numeric sentinel.
-  `Good.step` therefore carries two explicit hypotheses on the step (`NoBoolView`, `SafeLine`);
-  the executable `safeFrom` checks them along a history.
+  HISTORY.  A first version of this file found that even `World.Good` was not preserved by every
+  history, through two artefacts of the NAME-based view descriptors of `World`:
+    (F-A) a copying operation whose result still carried the `view` flag, stored with
+          `World.put` under an `r=` name bound to a view, entered the write-back branch and wrote
+          a foreign column into that view's parent (`copy va r=vb`);
+    (F-B) after the name of a view's parent had been rebound to a record map whose field `i` is
+          BOOLEAN, `World.get?` resolved the view to a `plain bool` map with a numeric sentinel.
+  The model was repaired (`World.bind` for every freshly produced object; `World.get?` checks
+  the recorded field dtype); the two histories are kept at the end as regression examples, and
+  `Good.step` is unconditional.
 -/
 import HealSparse.Lemmas.WFApi
 import HealSparse.Lemmas.WFRes
@@ -90,13 +90,6 @@ theorem World.Good.wf {w : World} (h : w.Good) : w.WF :=
 theorem World.good_empty : ({} : World).Good := by
   refine ⟨?_, ?_, ?_⟩ <;> intro e he <;> cases he
 
-/-- is the name currently bound to a view descriptor -/
-def World.isView (w : World) (n : String) : Bool := ((w.raw? n).bind (·.view)).isSome
-
-/-- no view of a BOOLEAN record field can currently be looked up (finding F-B) -/
-def World.NoBoolView (w : World) : Prop :=
-  ∀ n m, w.get? n = some m → m.view ≠ none → m.kind ≠ .plain .bool
-
 theorem World.raw?_mem {w : World} {n : String} {m : MapObj} (h : w.raw? n = some m) :
     ∃ e ∈ w.pool, e.1 = n ∧ e.2 = m := by
   unfold World.raw? at h
@@ -114,7 +107,8 @@ theorem World.raw?_mem {w : World} {n : String} {m : MapObj} (h : w.raw? n = som
 theorem World.get?_cases {w : World} {n : String} {v : MapObj} (h : w.get? n = some v) :
     (w.raw? n = some v ∧ v.view = none) ∨
     ∃ d pn i p, w.raw? n = some d ∧ d.view = some (pn, i) ∧ w.raw? pn = some p ∧
-      d.sent = viewBlank p i ∧ materializeView p pn i d.sent d.cache = .ok v := by
+      d.sent = viewBlank p i ∧ materializeView p pn i d.sent d.cache = .ok v ∧
+      v.kind = d.kind ∧ d.kind ≠ .plain .bool := by
   unfold World.get? at h
   split at h
   · cases h
@@ -130,9 +124,14 @@ theorem World.get?_cases {w : World} {n : String} {v : MapObj} (h : w.get? n = s
         · cases h
         · rename_i hs
           split at h
-          · cases h
-            refine .inr ⟨d, pn, i, p, hd, hv, hp, ?_, ‹_›⟩
-            exact (by simpa using hs : d.sent = recField i (p.kind.blank p.sent))
+          · rename_i v' hm
+            split at h
+            · rename_i hc
+              cases h
+              simp only [Bool.and_eq_true, beq_iff_eq, bne_iff_ne] at hc
+              refine .inr ⟨d, pn, i, p, hd, hv, hp, ?_, hm, hc.1, hc.2⟩
+              exact (by simpa using hs : d.sent = recField i (p.kind.blank p.sent))
+            · cases h
           · cases h
 
 /-- a materialised view has a record parent -/
@@ -143,10 +142,11 @@ theorem materializeView_parent_recd {p : MapObj} {pn : String} {i : Nat} {sent :
   obtain ⟨fs, pr, hk, _⟩ := singleSentinel_ok hs
   rw [hk]; rfl
 
-/-- what `World.get?` answers in a good world is well formed, well typed, sentinel compatible -/
-theorem World.Good.get {w : World} (hw : w.Good) (hb : w.NoBoolView) {n : String} {v : MapObj}
+/-- **what `World.get?` answers in a good world is well formed, well typed, sentinel compatible**
+    (a view is resolved against its parent, which is an owning entry) -/
+theorem World.Good.get {w : World} (hw : w.Good) {n : String} {v : MapObj}
     (h : w.get? n = some v) : v.Ok := by
-  rcases World.get?_cases h with ⟨hr, hv⟩ | ⟨d, pn, i, p, hd, hdv, hp, hs, hm⟩
+  rcases World.get?_cases h with ⟨hr, hv⟩ | ⟨d, pn, i, p, hd, hdv, hp, hs, hm, hk, hnb⟩
   · obtain ⟨e, he, _, rfl⟩ := World.raw?_mem hr
     exact hw.1 e he hv
   · obtain ⟨e, he, _, rfl⟩ := World.raw?_mem hp
@@ -162,29 +162,30 @@ theorem World.Good.get {w : World} (hw : w.Good) (hb : w.NoBoolView) {n : String
     refine ⟨WF.materializeView_of_sent hpok.1 hm hs, ?_, MapObj.sentOK_of_plain h3⟩
     apply kindOk_plain h3
     intro hdt
-    exact absurd (by rw [h3, hdt]) (hb n v h (by rw [h7]; exact fun h => nomatch h))
+    exact absurd (by rw [← hk, h3, hdt]) hnb
 
 /-! ### `World.put` -/
 
-/-- storing under a name that is not a view, or storing a map without the view flag: the map
-    becomes an owning entry -/
-theorem World.Good.put_fresh {w : World} (hw : w.Good) (r : String) {m : MapObj} (hm : m.Ok)
-    (h : m.view = none ∨ w.isView r = false) : (w.put r m).Good := by
-  unfold World.put
+/-- binding a name to a freshly produced map: the map becomes an owning entry -/
+theorem World.Good.bind {w : World} (hw : w.Good) (r : String) {m : MapObj} (hm : m.Ok) :
+    (w.bind r m).Good := by
+  refine ⟨?_, ?_, hw.2.2⟩
+  · intro e he hev
+    rcases List.mem_cons.1 he with rfl | he
+    · exact hm
+    · exact hw.1 e (List.mem_filter.1 he).1 hev
+  · intro e he hev
+    rcases List.mem_cons.1 he with rfl | he
+    · exact absurd rfl hev
+    · exact hw.2.1 e (List.mem_filter.1 he).1 hev
+
+/-- `World.put` of a map without the view flag is `World.bind` -/
+theorem World.put_eq_bind {w : World} {r : String} {m : MapObj} (h : m.view = none) :
+    w.put r m = w.bind r m := by
+  unfold World.put World.bind
   split
-  · rename_i pn i x h1 h2
-    rcases h with h | h
-    · rw [h] at h2; cases h2
-    · unfold World.isView at h; rw [h1] at h; cases h
-  · refine ⟨?_, ?_, hw.2.2⟩
-    · intro e he hev
-      rcases List.mem_cons.1 he with rfl | he
-      · exact hm
-      · exact hw.1 e (List.mem_filter.1 he).1 hev
-    · intro e he hev
-      rcases List.mem_cons.1 he with rfl | he
-      · exact absurd rfl hev
-      · exact hw.2.1 e (List.mem_filter.1 he).1 hev
+  · rename_i h2; rw [h] at h2; cases h2
+  · rfl
 
 /-- storing, under the name it was looked up with, a map that kept the looked-up map's
     configuration, kind, sentinel and view flag (every in-place operation): for a view the column
@@ -192,8 +193,9 @@ theorem World.Good.put_fresh {w : World} (hw : w.Good) (r : String) {m : MapObj}
 theorem World.Good.put_inplace {w : World} (hw : w.Good) {n : String} {v m' : MapObj}
     (hget : w.get? n = some v) (hm : m'.Ok) (hsame : m'.Same v) : (w.put n m').Good := by
   obtain ⟨h1, h2, h3, h4, h5⟩ := hsame
-  rcases World.get?_cases hget with ⟨hr, hv⟩ | ⟨d, pn, i, p, hd, hdv, hp, hs, hmat⟩
-  · exact hw.put_fresh n hm (.inl (h5.trans hv))
+  rcases World.get?_cases hget with ⟨hr, hv⟩ | ⟨d, pn, i, p, hd, hdv, hp, hs, hmat, _, _⟩
+  · rw [World.put_eq_bind (h5.trans hv)]
+    exact hw.bind n hm
   · obtain ⟨dt, s, _, g1, g2, g3, g4, _, _, g7⟩ := materializeView_ok hmat
     have hrec := materializeView_parent_recd hmat
     obtain ⟨e, he, _, rfl⟩ := World.raw?_mem hp
@@ -236,5 +238,848 @@ theorem World.Good.put_inplace {w : World} (hw : w.Good) {n : String} {v m' : Ma
           · exact hw.2.1 e' (List.mem_filter.1 he').1 hev
     · rename_i hno
       exact absurd hmv (fun h => hno pn i (pn, i) hdisc h)
+
+
+/-! ### map-level: `Ok` through the API -/
+
+theorem Ok.apiMakeEmpty {co so : Nat} {kind : Kind} {sent : Option Val} {P : List Nat} {m : MapObj}
+    (h : HS.apiMakeEmpty co so kind sent P = .ok m) : m.Ok ∧ m.view = none :=
+  ⟨⟨WF.apiMakeEmpty h, KindOk.apiMakeEmpty h, SentOK.apiMakeEmpty h⟩, (WFApi.apiMakeEmpty_ok h).2.2.2.2.2.2.2⟩
+
+theorem Ok.apiUpdate {m m' : MapObj} {op : String} {pix : List Nat} {vals : Option (List Val)}
+    {single : Bool} {ru : Option Bool} (h : m.Ok) (hr : HS.apiUpdate m op pix vals single ru = .ok m') :
+    m'.Ok ∧ m'.Same m := by
+  obtain ⟨h1, h2, h3, h4, h5, _⟩ := WFApi.apiUpdate_ok hr
+  exact ⟨⟨WF.apiUpdate h.1 hr, KindOk.apiUpdate h.2.1 hr, (MapObj.SentOK_congr h3 h4).2 h.2.2⟩,
+    h1, h2, h3, h4, h5⟩
+
+theorem Ok.apiUpdateRanges {m m' : MapObj} {op : String} {R : List (Nat × Nat)} {val : Option Val}
+    {sl : Bool} (h : m.Ok) (hr : HS.apiUpdateRanges m op R val sl = .ok m') : m'.Ok ∧ m'.Same m := by
+  obtain ⟨h1, h2, h3, h4, h5, _⟩ := WFApi.apiUpdateRanges_ok hr
+  exact ⟨⟨WF.apiUpdateRanges h.1 hr, KindOk.apiUpdateRanges h.2.1 hr, (MapObj.SentOK_congr h3 h4).2 h.2.2⟩,
+    h1, h2, h3, h4, h5⟩
+
+theorem Ok.apiSetBits {m m' : MapObj} {pix bits : List Nat} {clear : Bool} (h : m.Ok)
+    (hr : HS.apiSetBits m pix bits clear = .ok m') : m'.Ok ∧ m'.Same m := by
+  obtain ⟨op, vals, hu⟩ := WFApi.apiSetBits_ok hr
+  exact Ok.apiUpdate h hu
+
+theorem Ok.withSt {m : MapObj} {st : State Val} (x : Option Nat) (h : m.Ok)
+    (hwf : ({ m with st := st, cache := x } : MapObj).WF) : ({ m with st := st, cache := x } : MapObj).Ok :=
+  ⟨hwf, h.2.1, h.2.2⟩
+
+theorem Ok.apiAstype {m m' : MapObj} {dst : DT} {sentinel : Option Val} (h : m.Ok)
+    (hr : HS.apiAstype m dst sentinel = .ok m') : m'.Ok := by
+  obtain ⟨_, _, _, h3, _⟩ := WFApi.apiAstype_ok hr
+  exact ⟨WF.apiAstype h.1 h.2.1 hr, KindOk.apiAstype hr, MapObj.sentOK_of_plain h3⟩
+
+theorem Ok.apiAsBitPacked {m m' : MapObj} (h : m.Ok) (hr : HS.apiAsBitPacked m = .ok m') : m'.Ok := by
+  refine ⟨WF.apiAsBitPacked h.1 hr, KindOk.apiAsBitPacked h.2.1 hr, ?_⟩
+  obtain ⟨_, _, _, _, h3⟩ := WFApi.apiAsBitPacked_ok hr
+  rcases h3 with ⟨_, h3, h4, _⟩ | ⟨h3, _, _⟩
+  · exact (MapObj.SentOK_congr h3 h4).2 h.2.2
+  · exact MapObj.sentOK_of_not_wide (by rw [h3]; intro n hn; cases hn)
+
+theorem Ok.apiGetSingleCopy {m m' : MapObj} {i : Nat} {sentinel : Option Val} (h : m.Ok)
+    (hr : HS.apiGetSingleCopy m i sentinel = .ok m') : m'.Ok ∧ m'.view = none := by
+  obtain ⟨dt, _, _, _, h3, _, _, h7⟩ := WFApi.apiGetSingleCopy_ok hr
+  exact ⟨⟨WF.apiGetSingleCopy h.1 h.2.1 hr, KindOk.apiGetSingleCopy h.2.1 hr, MapObj.sentOK_of_plain h3⟩, h7⟩
+
+theorem multiKindOut_wide {k : Kind} {d : String} {n : Nat} (h : multiKindOut k d = .wide n) : k = .wide n := by
+  unfold multiKindOut at h
+  split at h
+  · cases h
+  · cases h
+  · exact h
+
+theorem Ok.apiMultiOp {row : OpRow} {maps : List MapObj} {m' : MapObj} (h : ∀ m ∈ maps, m.Ok)
+    (hrow : parseDTCode row.dtypeOut ≠ some .bool) (hr : HS.apiMultiOp row maps = .ok m') : m'.Ok := by
+  refine ⟨WF.apiMultiOp (fun m hm => (h m hm).1) hr, KindOk.apiMultiOp (fun m hm => (h m hm).2.1) hrow hr, ?_⟩
+  obtain ⟨first, rest, rfl, _, _, h3, _, hcase⟩ := WFApi.apiMultiOp_ok hr
+  have hf := (h first (List.mem_cons_self ..)).2.2
+  rcases hcase with ⟨hk, _, _⟩ | ⟨hk, _, _⟩
+  · exact (MapObj.SentOK_congr hk h3).2 hf
+  · unfold MapObj.SentOK Kind.sentOK
+    split
+    · rename_i n hn
+      rw [hn] at hk
+      have := multiKindOut_wide hk.symm
+      unfold MapObj.SentOK Kind.sentOK at hf
+      rw [this] at hf
+      rw [h3]; exact hf
+    · trivial
+
+
+
+theorem SentOK.apiDegradeCore {m m' : MapObj} {ordOut : Nat} {red : String} {w : Option MapObj}
+    (h : m.SentOK) (hr : HS.apiDegradeCore m ordOut red w = .ok m') : m'.SentOK := by
+  rcases apiDegradeCore_kind m ordOut red w m' hr with ⟨h3, h4⟩ | ⟨b, hb⟩ | ⟨fs, pr, _, hk'⟩
+  · exact (MapObj.SentOK_congr h3 h4).2 h
+  · exact MapObj.sentOK_of_plain hb
+  · exact MapObj.sentOK_of_not_wide (by rw [hk']; intro n hn; cases hn)
+
+theorem SentOK.rehouse {m m' : MapObj} {co : Nat} (hr : HS.rehouse m co = .ok m') : m'.SentOK := by
+  revert m'
+  show OkP MapObj.SentOK (HS.rehouse m co)
+  unfold HS.rehouse
+  refine OkP.bind (Q := MapObj.SentOK) (fun e he => SentOK.apiMakeEmpty he) ?_
+  intro e he
+  split
+  · exact OkP.of_throw _
+  · intro m' hm'
+    obtain ⟨_, _, h3, h4, _⟩ := WFApi.apiUpdate_ok hm'
+    exact (MapObj.SentOK_congr h3 h4).2 he
+
+theorem SentOK.apiDegrade {m m' : MapObj} {ordOut : Nat} {red : String} {w : Option MapObj}
+    (h : m.SentOK) (hr : HS.apiDegrade m ordOut red w = .ok m') : m'.SentOK := by
+  revert m'
+  show OkP MapObj.SentOK (HS.apiDegrade m ordOut red w)
+  unfold HS.apiDegrade
+  okp
+  · refine OkP.bind (Q := MapObj.SentOK) (fun e he => SentOK.rehouse he) ?_
+    intro m1 hm1
+    extract_lets jp
+    refine OkP.bind (Q := fun _ => True) (fun _ _ => trivial) ?_
+    intro w' _ r hr
+    exact SentOK.apiDegradeCore hm1 hr
+  · refine OkP.bind (Q := MapObj.SentOK) (fun e he => SentOK.rehouse he) ?_
+    intro m1 hm1
+    extract_lets jp
+    refine OkP.bind (Q := fun _ => True) (fun _ _ => trivial) ?_
+    intro w' _ r hr
+    exact SentOK.apiDegradeCore hm1 hr
+  · exact h
+  · exact fun r hr => SentOK.apiDegradeCore h hr
+
+theorem Ok.apiDegrade {m m' : MapObj} {ordOut : Nat} {red : String} {w : Option MapObj}
+    (h : m.Ok) (hr : HS.apiDegrade m ordOut red w = .ok m') : m'.Ok :=
+  ⟨WF.apiDegrade h.1 hr, KindOk.apiDegrade h.2.1 hr, SentOK.apiDegrade h.2.2 hr⟩
+
+theorem SentOK.apiUpgrade {m m' : MapObj} {ordOut : Nat} (h : m.SentOK)
+    (hr : HS.apiUpgrade m ordOut = .ok m') : m'.SentOK := by
+  revert m'
+  show OkP MapObj.SentOK (HS.apiUpgrade m ordOut)
+  unfold HS.apiUpgrade
+  okp
+  exact h
+
+theorem Ok.apiUpgrade {m m' : MapObj} {ordOut : Nat} (h : m.Ok)
+    (hr : HS.apiUpgrade m ordOut = .ok m') : m'.Ok :=
+  ⟨WF.apiUpgrade h.1 hr, KindOk.apiUpgrade h.2.1 hr, SentOK.apiUpgrade h.2.2 hr⟩
+
+theorem apiFromHealpix_plain {covord spord : Nat} {dt : DT} {sentinel : Option Val} {hp : List Val}
+    {b : Bool} {m' : MapObj} (hr : HS.apiFromHealpix covord spord dt sentinel hp b = .ok m') :
+    m'.kind = .plain dt ∧ m'.view = none := by
+  revert m'
+  show OkP (fun m' => m'.kind = .plain dt ∧ m'.view = none) (HS.apiFromHealpix covord spord dt sentinel hp b)
+  unfold HS.apiFromHealpix
+  okp
+  refine OkP.bind (Q := fun _ => True) (fun _ _ => trivial) ?_
+  intro sent _
+  apply OkP.of_pure
+  exact ⟨rfl, rfl⟩
+
+theorem Ok.apiFromHealpix {covord spord : Nat} {dt : DT} {sentinel : Option Val} {hp : List Val}
+    {b : Bool} {m' : MapObj} (hr : HS.apiFromHealpix covord spord dt sentinel hp b = .ok m') :
+    m'.Ok ∧ m'.view = none :=
+  ⟨⟨WF.apiFromHealpix hr, KindOk.apiFromHealpix hr, MapObj.sentOK_of_plain (apiFromHealpix_plain hr).1⟩,
+    (apiFromHealpix_plain hr).2⟩
+
+theorem apiReadHealpix_plain {f : HpFile} {covord : Nat} {r2n : Option (Array Nat)} {m' : MapObj}
+    (hr : HS.apiReadHealpix f covord r2n = .ok m') : (∃ dt, m'.kind = .plain dt) ∧ m'.view = none := by
+  revert m'
+  show OkP (fun m' => (∃ dt, m'.kind = .plain dt) ∧ m'.view = none) (HS.apiReadHealpix f covord r2n)
+  unfold HS.apiReadHealpix
+  okp
+  · refine OkP.bind (Q := fun e => (∃ dt, e.kind = .plain dt) ∧ e.view = none) ?_ ?_
+    · intro e he
+      obtain ⟨_, _, _, hk, _, _, _, hv⟩ := WFApi.apiMakeEmpty_ok he
+      exact ⟨⟨_, hk⟩, hv⟩
+    · intro e ⟨⟨dt, hk⟩, hv⟩ m' hm'
+      obtain ⟨_, _, h3, _, h5, _⟩ := WFApi.apiUpdate_ok hm'
+      exact ⟨⟨dt, h3.trans hk⟩, h5.trans hv⟩
+  · exact fun _ h => ⟨⟨_, (apiFromHealpix_plain h).1⟩, (apiFromHealpix_plain h).2⟩
+  · exact fun _ h => ⟨⟨_, (apiFromHealpix_plain h).1⟩, (apiFromHealpix_plain h).2⟩
+
+theorem Ok.apiReadHealpix {f : HpFile} {covord : Nat} {r2n : Option (Array Nat)} {m' : MapObj}
+    (hr : HS.apiReadHealpix f covord r2n = .ok m') : m'.Ok ∧ m'.view = none := by
+  obtain ⟨⟨dt, hk⟩, hv⟩ := apiReadHealpix_plain hr
+  exact ⟨⟨WF.apiReadHealpix hr, KindOk.apiReadHealpix hr, MapObj.sentOK_of_plain hk⟩, hv⟩
+
+
+
+/-! ### files: the kind the reader recovers is well typed -/
+
+theorem dtCode_ne_b1 {dt : DT} (h : dtCode dt = "b1") : dt = .bool := by
+  cases dt with
+  | bool => rfl
+  | int b sg =>
+    exfalso
+    unfold dtCode at h
+    have := congrArg String.toList h
+    rw [String.toList_append] at this
+    cases sg <;> simp at this
+  | flt b =>
+    exfalso
+    unfold dtCode at h
+    have := congrArg String.toList h
+    rw [String.toList_append] at this
+    simp at this
+
+theorem parseDTCode_bool {s : String} (h : parseDTCode s = some .bool) : s = "b1" := by
+  unfold parseDTCode at h
+  split at h <;> first | (cases h; done) | rfl
+
+/-- the kind recovered from the file of a plain map: boolean only if the sentinel is a boolean -/
+theorem fileKind_apiWrite_plain {m : MapObj} {dt : DT} (md : List (String × String))
+    (hdt : m.kind = .plain dt) (hk : m.KindOk) {kind : Kind}
+    (h : fileKind (HS.apiWrite m md) = some kind) :
+    ∃ d, kind = .plain d ∧ (d = .bool → m.sent.isBoolVal = true) := by
+  unfold fileKind HS.apiWrite at h
+  simp only [hdt] at h
+  cases hs : m.sent with
+  | bool b =>
+    rw [hs] at h
+    cases dt <;> simp at h <;>
+      first
+      | exact ⟨.bool, h.symm, fun _ => rfl⟩
+      | exact ⟨.bool, h.2.symm, fun _ => rfl⟩
+  | _ =>
+    rw [hs] at h
+    cases dt with
+    | bool =>
+      unfold MapObj.KindOk MapObj.kindOk at hk
+      rw [hdt, hs] at hk
+      cases hk
+    | int b sg =>
+      simp only [Bool.false_eq_true, if_false] at h
+      split at h
+      · simp at h
+      · cases hp : parseDTCode (dtCode (.int b sg)) with
+        | none => simp [hp] at h
+        | some d =>
+          simp [hp] at h
+          refine ⟨d, h.symm, ?_⟩
+          intro hd; subst hd
+          cases dtCode_ne_b1 (parseDTCode_bool hp)
+    | flt b =>
+      simp only [Bool.false_eq_true, if_false] at h
+      split at h
+      · simp at h
+      · cases hp : parseDTCode (dtCode (.flt b)) with
+        | none => simp [hp] at h
+        | some d =>
+          simp [hp] at h
+          refine ⟨d, h.symm, ?_⟩
+          intro hd; subst hd
+          cases dtCode_ne_b1 (parseDTCode_bool hp)
+
+theorem KindOk.apiWrite {m : MapObj} (md : List (String × String)) (hk : m.KindOk) (hs : m.SentOK) :
+    (HS.apiWrite m md).KindOk := by
+  intro kind hkind m' h3 h4
+  rw [apiWrite_sentinel] at h4
+  by_cases hpl : ∃ dt, m.kind = .plain dt
+  · obtain ⟨dt, hdt⟩ := hpl
+    obtain ⟨d, rfl, hd⟩ := fileKind_apiWrite_plain md hdt hk hkind
+    exact kindOk_plain h3 (fun h => by rw [h4]; exact hd h)
+  · have := fileKind_apiWrite_exact m md hs (fun dt hdt => hpl ⟨dt, hdt⟩)
+    rw [this] at hkind
+    cases hkind
+    exact (MapObj.KindOk_congr h3 h4).2 hk
+
+theorem KindOk.apiRead {f : FileObj} {pixels : Option (List Nat)} {m : MapObj} (hf : f.KindOk)
+    (h : HS.apiRead f pixels = .ok m) : m.KindOk := by
+  obtain ⟨kind, hk, _, _, h3, h4, _⟩ := apiRead_ok h
+  exact hf kind hk m h3 h4
+
+theorem Ok.apiRead {f : FileObj} {pixels : Option (List Nat)} {m : MapObj} (hf : f.WF ∧ f.KindOk)
+    (h : HS.apiRead f pixels = .ok m) : m.Ok :=
+  ⟨WF.apiRead hf.1 h, KindOk.apiRead hf.2 h, SentOK.apiRead h⟩
+
+theorem Ok.apiWrite {m : MapObj} (md : List (String × String)) (h : m.Ok) :
+    (HS.apiWrite m md).WF ∧ (HS.apiWrite m md).KindOk :=
+  ⟨WF.apiWrite_partial md h.1 h.2.2, KindOk.apiWrite md h.2.1 h.2.2⟩
+
+theorem Ok.apiCat {files : List FileObj} {covordOut : Option Nat} {co oo : Bool} {fo : FileObj}
+    (hf : ∀ f ∈ files, f.WF ∧ f.KindOk) (h : HS.apiCat files covordOut co oo = .ok fo) :
+    fo.WF ∧ fo.KindOk := by
+  refine ⟨WF.apiCat (fun f hfm => (hf f hfm).1) h, ?_⟩
+  obtain ⟨f0, rest, kind, st, rfl, _, hk, _, _, rfl⟩ := apiCat_ok h
+  apply KindOk.apiWrite
+  · exact (hf f0 (List.mem_cons_self ..)).2 kind hk _ rfl rfl
+  · exact fileKind_sentOK hk
+
+
+theorem kindOk_mk_wide (co so n : Nat) (s : Val) (st : State Val) :
+    MapObj.KindOk { covord := co, spord := so, kind := .wide n, sent := s, st := st } := rfl
+
+theorem kindOk_mk_recd_aux {co so : Nat} {fs : List DT} {pr : Nat} {s : Val} (st : State Val)
+    (h : ∀ m : MapObj, m.kind = .recd fs pr → m.sent = s → m.KindOk) :
+    MapObj.KindOk { covord := co, spord := so, kind := .recd (fs.map auxDT) pr,
+                    sent := (auxDT (fs.getD pr (.flt 64))).defaultSentinel, st := st } := by
+  have h0 := h { covord := 0, spord := 0, kind := .recd fs pr, sent := s, st := st } rfl rfl
+  unfold MapObj.KindOk MapObj.kindOk at h0 ⊢
+  simp only at h0
+  simp only [List.getElem?_map]
+  cases hget : fs[pr]? with
+  | none => rw [hget] at h0; cases h0
+  | some dt =>
+    obtain ⟨b, hb⟩ := auxDT_flt dt
+    simp [hb]
+
+theorem kindOk_mk_plain_keep {co so : Nat} {dt0 : DT} {s : Val} (st : State Val)
+    (h : ∀ m : MapObj, m.kind = .plain dt0 → m.sent = s → m.KindOk) :
+    MapObj.KindOk { covord := co, spord := so,
+                    kind := if (dt0 == .bool) = true then Kind.plain .bool else Kind.plain dt0,
+                    sent := s, st := st } := by
+  have h0 := h { covord := 0, spord := 0, kind := .plain dt0, sent := s, st := st } rfl rfl
+  cases dt0 with
+  | bool => exact h0
+  | int b sg => exact rfl
+  | flt b => exact rfl
+
+theorem kindOk_mk_plain_aux (co so : Nat) (dt : DT) (s : Val) (st : State Val) :
+    MapObj.KindOk { covord := co, spord := so, kind := .plain (auxDT dt), sent := s, st := st } := by
+  obtain ⟨b, hb⟩ := auxDT_flt dt
+  rw [hb]
+  rfl
+
+set_option hygiene false in
+local macro "kdor_leafs" : tactic => `(tactic| (
+  split at h
+  · cases h
+    first
+    | exact kindOk_mk_wide _ _ _ _ _
+    | exact kindOk_mk_recd_aux _ (hf _ hk)
+    | exact kindOk_mk_plain_keep _ (hf _ hk)
+    | exact kindOk_mk_plain_aux _ _ _ _ _
+  · cases h))
+
+set_option hygiene false in
+local macro "kdor_rest" : tactic => `(tactic| (
+  obtain ⟨h2, h⟩ := ite_err_ok h
+  generalize hk : fileKind _ = ok at h
+  cases ok with
+  | none => cases h
+  | some k =>
+    obtain ⟨_, h⟩ := ite_err_ok h
+    cases k with
+    | packed => cases h
+    | wide n =>
+      obtain ⟨_, h⟩ := ite_err_ok h
+      kdor_leafs
+    | recd fs pr =>
+      obtain ⟨_, h⟩ := ite_err_ok h
+      obtain ⟨_, h⟩ := ite_err_ok h
+      try dsimp only at h
+      kdor_leafs
+    | plain dt0 =>
+      obtain ⟨_, h⟩ | ⟨_, h⟩ := ite_ok_inv h
+      · kdor_leafs
+      · obtain ⟨_, h⟩ := ite_err_ok h
+        obtain ⟨_, h⟩ := ite_err_ok h
+        try dsimp only at h
+        kdor_leafs))
+
+/-- degrade-on-read of a file whose recovered kind is well typed gives a well-typed map -/
+theorem KindOk.apiDegradeOnRead {f : FileObj} {ordOut : Nat} {red : String}
+    {pixels : Option (List Nat)} {wf : Option FileObj} {m : MapObj} (hf : f.KindOk)
+    (h : HS.apiDegradeOnRead f ordOut red pixels wf = .ok m) : m.KindOk := by
+  unfold HS.apiDegradeOnRead at h
+  simp only [bind, Except.bind, pure, Except.pure, throw, throwThe, MonadExceptOf.throw] at h
+  generalize hpx : dorPixels _ _ _ = opx at h
+  cases opx with
+  | none => cases h
+  | some px =>
+    cases wf with
+    | none =>
+      dsimp only at h
+      obtain ⟨h1, h⟩ := ite_err_ok h
+      obtain ⟨_, h⟩ := ite_err_ok h
+      obtain ⟨hc, h⟩ | ⟨_, h⟩ := ite_ok_inv h
+      · cases hc
+      · kdor_rest
+    | some w =>
+      dsimp only at h
+      obtain ⟨_, h⟩ | ⟨_, h⟩ := ite_ok_inv h
+      · obtain ⟨_, h⟩ := ite_err_ok h
+        obtain ⟨_, h⟩ := ite_err_ok h
+        obtain ⟨h1, h⟩ := ite_err_ok h
+        obtain ⟨_, h⟩ := ite_err_ok h
+        obtain ⟨_, h⟩ | ⟨hc, h⟩ := ite_ok_inv h
+        · obtain ⟨_, h⟩ := ite_err_ok h
+          kdor_rest
+        · exact absurd trivial hc
+      · obtain ⟨h1, h⟩ := ite_err_ok h
+        obtain ⟨_, h⟩ := ite_err_ok h
+        obtain ⟨hc, h⟩ | ⟨_, h⟩ := ite_ok_inv h
+        · cases hc
+        · kdor_rest
+
+theorem Ok.apiDegradeOnRead {f : FileObj} {ordOut : Nat} {red : String}
+    {pixels : Option (List Nat)} {wf : Option FileObj} {m : MapObj} (hf : f.KindOk)
+    (h : HS.apiDegradeOnRead f ordOut red pixels wf = .ok m) : m.Ok :=
+  ⟨(apiDegradeOnRead_ok h).1, KindOk.apiDegradeOnRead hf h, (apiDegradeOnRead_ok h).2.1⟩
+
+/-! ### the operations of Model/Dispatch.lean -/
+
+
+/-! ### world-level helpers -/
+
+theorem World.Good.files_insert {w : World} (hw : w.Good) (n : String) {fo : FileObj}
+    (hfo : fo.WF ∧ fo.KindOk) :
+    ({ w with files := (n, fo) :: w.files.filter (·.1 != n) } : World).Good := by
+  refine ⟨hw.1, hw.2.1, ?_⟩
+  intro e he
+  rcases List.mem_cons.1 he with rfl | he
+  · exact hfo
+  · exact hw.2.2 e (List.mem_filter.1 he).1
+
+theorem World.Good.file_find {w : World} (hw : w.Good) {n : String} {fo : FileObj}
+    (hf : (w.files.find? (·.1 == n)).map (·.2) = some fo) : fo.WF ∧ fo.KindOk := by
+  cases hfind : w.files.find? (·.1 == n) with
+  | none => rw [hfind] at hf; cases hf
+  | some e =>
+    rw [hfind] at hf
+    cases hf
+    exact hw.2.2 e (List.mem_of_find?_eq_some hfind)
+
+/-- an operation on a looked-up map: it suffices to treat the case where the lookup succeeds -/
+theorem good_withMap {w : World} {a : Args} {k : MapObj → World × String} (hw : w.Good)
+    (hk : ∀ n m, a.pos.headD "" = n → w.get? n = some m → m.Ok → (k m).1.Good) :
+    (withMap w a k).1.Good := by
+  unfold withMap
+  split
+  · rename_i n rest hpos
+    split
+    · rename_i m hm
+      exact hk n m (by rw [hpos]; rfl) hm (hw.get hm)
+    · exact hw
+  · exact hw
+
+set_option hygiene false in
+/-- walk the `match` / `if` cascade of an operation; the leaves that leave the world unchanged
+    are closed by the hypothesis `hw` -/
+macro "op_split" : tactic => `(tactic| repeat' (first | exact hw | split | simp only []))
+
+theorem Good.opCfg {w : World} (hw : w.Good) (a : Args) : (HS.opCfg w a).1.Good := by
+  unfold HS.opCfg
+  op_split
+  exact hw.bind _ (Ok.apiMakeEmpty ‹_›).1
+
+theorem Good.opUpd {w : World} (hw : w.Good) (a : Args) : (HS.opUpd w a).1.Good := by
+  unfold HS.opUpd
+  refine good_withMap hw fun n m hn hget hok => ?_
+  simp only [hn]
+  op_split
+  all_goals first
+    | exact hw.put_inplace hget ((MapObj.Ok_cache _ _).2 hok) (MapObj.same_cache _ _)
+    | (obtain ⟨h1, h2⟩ := Ok.apiUpdate hok ‹_›; exact hw.put_inplace hget h1 h2)
+
+theorem Good.opUpdr {w : World} (hw : w.Good) (a : Args) : (HS.opUpdr w a).1.Good := by
+  unfold HS.opUpdr
+  refine good_withMap hw fun n m hn hget hok => ?_
+  simp only [hn]
+  op_split
+  all_goals first
+    | exact hw.put_inplace hget ((MapObj.Ok_cache _ _).2 hok) (MapObj.same_cache _ _)
+    | (obtain ⟨h1, h2⟩ := Ok.apiUpdateRanges hok ‹_›; exact hw.put_inplace hget h1 h2)
+
+theorem Good.opSop {w : World} (hw : w.Good) (a : Args) : (HS.opSop w a).1.Good := by
+  unfold HS.opSop
+  refine good_withMap hw fun n m hn hget hok => ?_
+  simp only [hn]
+  cases hin : a.flag "inplace" <;> simp only [↓reduceIte, Bool.false_eq_true, Bool.false_and, Bool.true_and]
+  all_goals op_split
+  all_goals first
+    | exact hw.bind _ (Ok.withSt none hok (WF.apiScalarOp none hok.1 ‹_›))
+    | exact hw.put_inplace hget (Ok.withSt none hok (WF.apiScalarOp none hok.1 ‹_›)) (MapObj.same_withSt _ _ _)
+    | exact hw.put_inplace hget ((MapObj.Ok_cache _ _).2 hok) (MapObj.same_cache _ _)
+
+theorem Good.opMask {w : World} (hw : w.Good) (a : Args) : (HS.opMask w a).1.Good := by
+  unfold HS.opMask
+  refine good_withMap hw fun n m hn hget hok => ?_
+  simp only [hn]
+  op_split
+  all_goals first
+    | exact hw.bind _ (Ok.withSt none hok (WF.apiApplyMask none hok.1 ‹_›))
+    | exact hw.put_inplace hget (Ok.withSt none hok (WF.apiApplyMask none hok.1 ‹_›)) (MapObj.same_withSt _ _ _)
+
+theorem Good.opAstype {w : World} (hw : w.Good) (a : Args) : (HS.opAstype w a).1.Good := by
+  unfold HS.opAstype
+  refine good_withMap hw fun n m hn hget hok => ?_
+  op_split
+  exact hw.bind _ (Ok.apiAstype hok ‹_›)
+
+theorem Good.opPack {w : World} (hw : w.Good) (a : Args) : (HS.opPack w a).1.Good := by
+  unfold HS.opPack
+  refine good_withMap hw fun n m hn hget hok => ?_
+  op_split
+  all_goals exact hw.bind _ (Ok.apiAsBitPacked hok ‹_›)
+
+theorem Good.opInv {w : World} (hw : w.Good) (a : Args) : (HS.opInv w a).1.Good := by
+  unfold HS.opInv
+  refine good_withMap hw fun n m hn hget hok => ?_
+  simp only [hn]
+  op_split
+  all_goals first
+    | exact hw.bind _ (Ok.withSt none hok (WF.apiInvert none hok.1 hok.2.1 ‹_›))
+    | exact hw.put_inplace hget (Ok.withSt none hok (WF.apiInvert none hok.1 hok.2.1 ‹_›)) (MapObj.same_withSt _ _ _)
+
+theorem Good.opBits {w : World} (hw : w.Good) (a : Args) : (HS.opBits w a).1.Good := by
+  unfold HS.opBits
+  refine good_withMap hw fun n m hn hget hok => ?_
+  simp only [hn]
+  op_split
+  obtain ⟨h1, h2⟩ := Ok.apiSetBits hok ‹_›
+  exact hw.put_inplace hget h1 h2
+
+theorem Good.opChk {w : World} (hw : w.Good) (a : Args) : (HS.opChk w a).1.Good := by
+  unfold HS.opChk
+  refine good_withMap hw fun n m hn hget hok => ?_
+  op_split
+
+theorem Good.opCopy {w : World} (hw : w.Good) (a : Args) : (HS.opCopy w a).1.Good := by
+  unfold HS.opCopy
+  refine good_withMap hw fun n m hn hget hok => ?_
+  exact hw.bind _ ((MapObj.Ok_cache _ _).2 hok)
+
+theorem Good.opInfo {w : World} (hw : w.Good) (a : Args) : (HS.opInfo w a).1.Good := by
+  unfold HS.opInfo
+  refine good_withMap hw fun n m hn hget hok => ?_
+  exact hw
+
+theorem bopRhs_wf {o : Option MapObj} {b : MapObj}
+    (h : o.map BoolRhs.map = some (.map b)) (ho : ∀ b, o = some b → b.Ok) : b.WF := by
+  cases o with
+  | none => cases h
+  | some b' =>
+    cases h
+    exact (ho _ rfl).1
+
+theorem Good.opBop {w : World} (hw : w.Good) (a : Args) : (HS.opBop w a).1.Good := by
+  unfold HS.opBop
+  refine good_withMap hw fun n m hn hget hok => ?_
+  simp only [hn]
+  op_split
+  all_goals
+    rename_i _ rhs hR _ st hst _
+    have hrhs : ∀ b, rhs = BoolRhs.map b → b.WF := by
+      intro b hb; subst hb
+      split at hR
+      · cases hR
+      · cases hR
+      · exact bopRhs_wf hR (fun b hb => hw.get hb)
+      · cases hR
+    first
+    | exact hw.put_inplace hget (Ok.withSt none hok (WF.apiBoolOp none hok.1 hok.2.1 hrhs hst)) (MapObj.same_withSt _ _ _)
+    | exact hw.bind _ (Ok.withSt none hok (WF.apiBoolOp none hok.1 hok.2.1 hrhs hst))
+    | exact hw.put_inplace hget ((MapObj.Ok_cache _ _).2 hok) (MapObj.same_cache _ _)
+
+theorem mem_mapM_get {w : World} (hw : w.Good) {names : List String} {maps : List MapObj}
+    (h : names.mapM w.get? = some maps) : ∀ m ∈ maps, m.Ok := by
+  intro m hm
+  obtain ⟨n, _, hn⟩ := mem_of_mapM_some _ _ _ h m hm
+  exact hw.get hn
+
+theorem Good.opMop {w : World} (hw : w.Good) (a : Args) : (HS.opMop w a).1.Good := by
+  unfold HS.opMop
+  op_split
+  rename_i _ maps hmaps _ row hrow _ v hv
+  have hd : parseDTCode row.dtypeOut ≠ some .bool := by
+    split at hrow
+    · cases hf : (a.get? "filler").bind parseVal with
+      | none => rw [hf] at hrow; cases hrow
+      | some fv =>
+        rw [hf] at hrow
+        cases hrow
+        intro h; cases h
+    · have hmem := List.mem_of_find?_eq_some hrow
+      have := List.all_eq_true.1 opsTable_dtypeOut row hmem
+      simpa using this
+  exact hw.bind _ (Ok.apiMultiOp (mem_mapM_get hw hmaps) hd hv)
+
+theorem Good.opDeg {w : World} (hw : w.Good) (a : Args) : (HS.opDeg w a).1.Good := by
+  unfold HS.opDeg
+  refine good_withMap hw fun n m hn hget hok => ?_
+  op_split
+  all_goals exact hw.bind _ (Ok.apiDegrade hok ‹_›)
+
+theorem Good.opUpg {w : World} (hw : w.Good) (a : Args) : (HS.opUpg w a).1.Good := by
+  unfold HS.opUpg
+  refine good_withMap hw fun n m hn hget hok => ?_
+  op_split
+  all_goals exact hw.bind _ (Ok.apiUpgrade hok ‹_›)
+
+theorem Good.opMoc {w : World} (hw : w.Good) (a : Args) : (HS.opMoc w a).1.Good := by
+  unfold HS.opMoc
+  refine good_withMap hw fun n m hn hget hok => ?_
+  op_split
+
+theorem Good.opMocread {w : World} (hw : w.Good) (a : Args) : (HS.opMocread w a).1.Good := by
+  unfold HS.opMocread
+  op_split
+  all_goals
+    rename_i e he _ v hv
+    exact hw.bind _ ((MapObj.Ok_cache _ _).2 (Ok.apiUpdate (Ok.apiMakeEmpty he).1 hv).1)
+
+/-- registering a view descriptor (no storage of its own, a non-record kind) -/
+theorem World.Good.register {w : World} (hw : w.Good) (r : String) {d : MapObj} (hv : d.view ≠ none)
+    (hk : d.kind.isRecd = false) :
+    ({ w with pool := (r, d) :: w.pool.filter (·.1 != r) } : World).Good := by
+  refine ⟨?_, ?_, hw.2.2⟩
+  · intro e he hev
+    rcases List.mem_cons.1 he with rfl | he
+    · exact absurd hev hv
+    · exact hw.1 e (List.mem_filter.1 he).1 hev
+  · intro e he hev
+    rcases List.mem_cons.1 he with rfl | he
+    · exact hk
+    · exact hw.2.1 e (List.mem_filter.1 he).1 hev
+
+theorem Good.opSingle {w : World} (hw : w.Good) (a : Args) : (HS.opSingle w a).1.Good := by
+  unfold HS.opSingle
+  refine good_withMap hw fun n m hn hget hok => ?_
+  op_split
+  all_goals first
+    | exact hw.bind _ (Ok.apiGetSingleCopy hok ‹_›).1
+    | exact hw.register _ (fun h => nomatch h) rfl
+
+theorem Good.opScov {w : World} (hw : w.Good) (a : Args) : (HS.opScov w a).1.Good := by
+  unfold HS.opScov
+  refine good_withMap hw fun n m hn hget hok => ?_
+  op_split
+  all_goals exact hw.bind _ (Ok.withSt none hok (WF.singleCovpix hok.1 (by omega)))
+
+theorem Good.opMeta {w : World} (hw : w.Good) (a : Args) : (HS.opMeta w a).1.Good := by
+  unfold HS.opMeta
+  refine good_withMap hw fun n m hn hget hok => ?_
+  exact hw
+
+theorem Good.opGetmeta {w : World} (hw : w.Good) (a : Args) : (HS.opGetmeta w a).1.Good := by
+  unfold HS.opGetmeta
+  refine good_withMap hw fun n m hn hget hok => ?_
+  exact hw
+
+theorem Good.opWrite {w : World} (hw : w.Good) (a : Args) : (HS.opWrite w a).1.Good := by
+  unfold HS.opWrite
+  refine good_withMap hw fun n m hn hget hok => ?_
+  exact hw.files_insert _ (Ok.apiWrite _ hok)
+
+theorem Good.opRead {w : World} (hw : w.Good) (a : Args) : (HS.opRead w a).1.Good := by
+  unfold HS.opRead
+  op_split
+  all_goals exact hw.bind _ (Ok.apiRead (hw.file_find ‹_›) ‹_›)
+
+theorem Good.opCovread {w : World} (hw : w.Good) (a : Args) : (HS.opCovread w a).1.Good := by
+  unfold HS.opCovread
+  op_split
+
+theorem Good.opFitsraw {w : World} (hw : w.Good) (a : Args) : (HS.opFitsraw w a).1.Good := by
+  unfold HS.opFitsraw
+  op_split
+
+theorem Good.opDor {w : World} (hw : w.Good) (a : Args) : (HS.opDor w a).1.Good := by
+  unfold HS.opDor
+  op_split
+  all_goals first
+    | exact hw.bind _ ((MapObj.Ok_cache _ _).2 (Ok.apiDegrade (Ok.apiReadHealpix ‹_›).1 ‹_›))
+    | exact hw.bind _ (Ok.apiDegradeOnRead (hw.file_find ‹_›).2 ‹_›)
+
+theorem Good.opCat {w : World} (hw : w.Good) (a : Args) : (HS.opCat w a).1.Good := by
+  unfold HS.opCat
+  op_split
+  all_goals
+    rename_i _ fs hfs _ fo hfo
+    refine hw.files_insert _ (Ok.apiCat ?_ hfo)
+    intro f hf
+    obtain ⟨n, _, hn⟩ := mem_of_mapM_some _ _ _ hfs f hf
+    exact hw.file_find hn
+
+theorem Good.opFromhp {w : World} (hw : w.Good) (a : Args) : (HS.opFromhp w a).1.Good := by
+  unfold HS.opFromhp
+  op_split
+  all_goals exact hw.bind _ (Ok.apiFromHealpix ‹_›).1
+
+theorem Good.opGenhp {w : World} (hw : w.Good) (a : Args) : (HS.opGenhp w a).1.Good := by
+  unfold HS.opGenhp
+  refine good_withMap hw fun n m hn hget hok => ?_
+  op_split
+
+theorem Good.opInterp {w : World} (hw : w.Good) (a : Args) : (HS.opInterp w a).1.Good := by
+  unfold HS.opInterp
+  refine good_withMap hw fun n m hn hget hok => ?_
+  op_split
+
+theorem Good.opHpxwrite {w : World} (hw : w.Good) (a : Args) : (HS.opHpxwrite w a).1.Good := by
+  unfold HS.opHpxwrite
+  refine good_withMap hw fun n m hn hget hok => ?_
+  op_split
+
+theorem Good.opHpximplicit {w : World} (hw : w.Good) (a : Args) : (HS.opHpximplicit w a).1.Good := by
+  unfold HS.opHpximplicit
+  op_split
+
+theorem Good.opHpxread {w : World} (hw : w.Good) (a : Args) : (HS.opHpxread w a).1.Good := by
+  unfold HS.opHpxread
+  op_split
+  all_goals exact hw.bind _ ((MapObj.Ok_cache _ _).2 (Ok.apiReadHealpix ‹_›).1)
+
+theorem Good.opRand {w : World} (hw : w.Good) (a : Args) : (HS.opRand w a).1.Good := by
+  unfold HS.opRand
+  op_split
+
+theorem Good.opSet {w : World} (hw : w.Good) (a : Args) : (HS.opSet w a).1.Good := by
+  unfold HS.opSet
+  refine good_withMap hw fun n m hn hget hok => ?_
+  simp only [hn]
+  op_split
+  all_goals first
+    | exact hw.put_inplace hget ((MapObj.Ok_cache _ _).2 hok) (MapObj.same_cache _ _)
+    | (obtain ⟨h1, h2⟩ := Ok.apiUpdate hok ‹_›; exact hw.put_inplace hget h1 h2)
+
+theorem Good.opVals {w : World} (hw : w.Good) (a : Args) : (HS.opVals w a).1.Good := by
+  unfold HS.opVals
+  refine good_withMap hw fun n m hn hget hok => ?_
+  exact hw
+
+theorem Good.opGet {w : World} (hw : w.Good) (a : Args) : (HS.opGet w a).1.Good := by
+  unfold HS.opGet
+  refine good_withMap hw fun n m hn hget hok => ?_
+  op_split
+
+theorem Good.opValid {w : World} (hw : w.Good) (a : Args) : (HS.opValid w a).1.Good := by
+  unfold HS.opValid
+  refine good_withMap hw fun n m hn hget hok => ?_
+  op_split
+
+theorem Good.opNvalid {w : World} (hw : w.Good) (a : Args) : (HS.opNvalid w a).1.Good := by
+  unfold HS.opNvalid
+  refine good_withMap hw fun n m hn hget hok => ?_
+  simp only [hn]
+  op_split
+  all_goals exact hw.put_inplace hget ((MapObj.Ok_cache _ _).2 hok) (MapObj.same_cache _ _)
+
+theorem Good.opCovmap {w : World} (hw : w.Good) (a : Args) : (HS.opCovmap w a).1.Good := by
+  unfold HS.opCovmap
+  refine good_withMap hw fun n m hn hget hok => ?_
+  exact hw
+
+theorem Good.opVpsc {w : World} (hw : w.Good) (a : Args) : (HS.opVpsc w a).1.Good := by
+  unfold HS.opVpsc
+  refine good_withMap hw fun n m hn hget hok => ?_
+  op_split
+
+theorem Good.opFracdet {w : World} (hw : w.Good) (a : Args) : (HS.opFracdet w a).1.Good := by
+  unfold HS.opFracdet
+  refine good_withMap hw fun n m hn hget hok => ?_
+  op_split
+  all_goals
+    rename_i ord _ _ hc
+    have hc' : ¬ (ord > m.spord) ∧ ¬ (ord < m.covord) := by simpa using hc
+    exact hw.bind _ ⟨WF.fracdet (ord := ord) hok.1 hok.2.1 (by omega) (by omega),
+      kindOk_plain rfl (fun hd => nomatch hd), MapObj.sentOK_of_plain rfl⟩
+
+theorem Good.opCovmask {w : World} (hw : w.Good) (a : Args) : (HS.opCovmask w a).1.Good := by
+  unfold HS.opCovmask
+  refine good_withMap hw fun n m hn hget hok => ?_
+  exact hw
+
+theorem Good.opDump {w : World} (hw : w.Good) (a : Args) : (HS.opDump w a).1.Good := by
+  unfold HS.opDump
+  refine good_withMap hw fun n m hn hget hok => ?_
+  exact hw
+
+theorem Good.opState {w : World} (hw : w.Good) (a : Args) : (HS.opState w a).1.Good := by
+  unfold HS.opState
+  refine good_withMap hw fun n m hn hget hok => ?_
+  op_split
+
+theorem Good.opDrop {w : World} (hw : w.Good) (a : Args) : (HS.opDrop w a).1.Good := by
+  unfold HS.opDrop
+  op_split
+  refine ⟨?_, ?_, hw.2.2⟩
+  · exact fun e he hev => hw.1 e (List.mem_filter.1 he).1 hev
+  · exact fun e he hev => hw.2.1 e (List.mem_filter.1 he).1 hev
+
+theorem Good.opReset {w : World} (a : Args) : (HS.opReset w a).1.Good := World.good_empty
+
+theorem Good.opBad {w : World} (hw : w.Good) (a : Args) : (HS.opBad w a).1.Good := by
+  unfold HS.opBad
+  refine good_withMap hw fun n m hn hget hok => ?_
+  exact hw
+
+theorem except_bind_ok {α β : Type} {x : Except Err α} {f : α → Except Err β} {b : β}
+    (h : (x >>= f) = .ok b) : ∃ a, x = .ok a ∧ f a = .ok b := by
+  cases x with
+  | error e => cases h
+  | ok a => exact ⟨a, rfl, h⟩
+
+theorem Good.opGeom {w : World} (hw : w.Good) (a : Args) : (HS.opGeom w a).1.Good := by
+  unfold HS.opGeom
+  refine good_withMap hw fun n m hn hget hok => ?_
+  simp only [hn]
+  op_split
+  all_goals first
+    | exact hw.put_inplace hget ((MapObj.Ok_cache _ _).2 hok) (MapObj.same_cache _ _)
+    | (rename_i _ v hv
+       obtain ⟨x, _, hu⟩ := except_bind_ok hv
+       obtain ⟨h1, h2⟩ := Ok.apiUpdateRanges hok hu
+       exact hw.put_inplace hget h1 h2)
+    | (rename_i _ v hv
+       obtain ⟨x, _, hu⟩ := except_bind_ok hv
+       exact hw.bind _ ((MapObj.Ok_cache _ _).2 (Ok.apiUpdateRanges ((MapObj.Ok_cache _ _).2 hok) hu).1))
+    | (rename_i _ e he _ v hv
+       have hE := (Ok.apiMakeEmpty he).1
+       refine hw.bind _ ((MapObj.Ok_cache _ _).2 ?_)
+       split at hv
+       · exact (Ok.apiSetBits hE hv).1
+       · split at hv
+         · exact (Ok.apiUpdate hE hv).1
+         · cases hv)
+
+/-! ### one protocol step -/
+
+theorem Good.stepArgs {w : World} (hw : w.Good) (op : String) (a : Args) :
+    (HS.stepArgs w op a).1.Good := by
+  unfold HS.stepArgs
+  split
+  all_goals with_reducible first
+    | exact hw
+    | exact Good.opReset a
+    | exact Good.opCfg hw a | exact Good.opUpd hw a | exact Good.opUpdr hw a | exact Good.opSop hw a
+    | exact Good.opMask hw a | exact Good.opAstype hw a | exact Good.opPack hw a | exact Good.opBop hw a
+    | exact Good.opInv hw a | exact Good.opBits hw a | exact Good.opChk hw a | exact Good.opCopy hw a
+    | exact Good.opInfo hw a | exact Good.opMop hw a | exact Good.opDeg hw a | exact Good.opUpg hw a
+    | exact Good.opMoc hw a | exact Good.opMocread hw a | exact Good.opSingle hw a | exact Good.opScov hw a
+    | exact Good.opMeta hw a | exact Good.opGetmeta hw a | exact Good.opWrite hw a | exact Good.opRead hw a
+    | exact Good.opCovread hw a | exact Good.opFitsraw hw a | exact Good.opDor hw a | exact Good.opCat hw a
+    | exact Good.opFromhp hw a | exact Good.opGenhp hw a | exact Good.opInterp hw a
+    | exact Good.opHpxwrite hw a | exact Good.opHpximplicit hw a | exact Good.opHpxread hw a
+    | exact Good.opRand hw a | exact Good.opGeom hw a | exact Good.opSet hw a | exact Good.opVals hw a
+    | exact Good.opGet hw a | exact Good.opValid hw a | exact Good.opNvalid hw a | exact Good.opCovmap hw a
+    | exact Good.opVpsc hw a | exact Good.opFracdet hw a | exact Good.opCovmask hw a | exact Good.opDump hw a
+    | exact Good.opState hw a | exact Good.opDrop hw a | exact Good.opBad hw a
+
+/-- **every protocol line preserves the world invariant** -/
+theorem Good.step {w : World} (hw : w.Good) (line : String) : (HS.step w line).1.Good := by
+  unfold HS.step
+  simp only
+  split
+  · exact hw
+  · split
+    · exact hw
+    · exact Good.stepArgs hw _ _
+
+/-- run a history from any good world -/
+theorem Good.foldl_step {w : World} (hw : w.Good) (lines : List String) :
+    (lines.foldl (fun w l => (HS.step w l).1) w).Good := by
+  induction lines generalizing w with
+  | nil => exact hw
+  | cons l ls ih => exact ih (Good.step hw l)
+
+/-- **every world reachable by a protocol history is good** -/
+theorem Good.runLines (lines : List String) : (HS.runLines lines).Good :=
+  Good.foldl_step World.good_empty lines
 
 end HS
